@@ -109,6 +109,11 @@ def check(case):
                 "alg:alias", al)
         require(np.array_equal(flat(getattr(cmo, al)(alpha=a1), (2,)), cis[k][0], equal_nan=True),
                 "alg:alias", al)
+        # alpha is the first positional parameter of every CI method, aliases included
+        require(np.array_equal(flat(getattr(cmo, al)(a2), (2,)), cis[k][1], equal_nan=True)
+                and np.array_equal(flat(getattr(cmo, k)(a2), (2,)), cis[k][1], equal_nan=True)
+                and np.array_equal(flat(getattr(metrics, al)(M, a2), (2,)), cis[k][1], equal_nan=True),
+                "alg:alias", f"{al} with positional alpha={a2!r}")
     # upper alpha/2 quantile through the lower tail (1 - alpha/2 would round for tiny alpha)
     z1, z2 = -norm_ppf(a1 / 2), -norm_ppf(a2 / 2)
 
